@@ -163,6 +163,9 @@ func (pk *PublicKey[PKV, S]) UnmarshalCBOR(data []byte) error {
 	if err != nil {
 		return errs.Wrap(err).WithMessage("failed to unmarshal schnorrlike public key")
 	}
+	if dto == nil {
+		return errs.Wrap(serde.ErrNull).WithMessage("failed to unmarshal schnorrlike public key")
+	}
 	pk2, err := NewPublicKey(dto.PK)
 	if err != nil {
 		return errs.Wrap(err).WithMessage("failed to validate deserialized public key")
